@@ -253,6 +253,62 @@ theorem leak_without_finish :
 theorem finish_raises_keeps_rewrite (valid : Str → Bool) (c : Ctx) :
     (step valid c .finishRaises).1 = c := rfl
 
+/-! ### no leak on a whole connection, including the ways a connection ends early -/
+
+theorem run_cons (valid : Str → Bool) (c : Ctx) (e : Ev) (es : List Ev) :
+    run valid c (e :: es) =
+      ((run valid (step valid c e).1 es).1, (step valid c e).2 :: (run valid (step valid c e).1 es).2) := by
+  simp only [run]
+
+theorem isRequest_none : Obs.none.isRequest = false := rfl
+
+theorem step_headers_ok (valid : Str → Bool) (s p : Str) (t : List Str) (r : List Str) (h : Headers)
+    (hp : parseBlock r = .ok h) :
+    (step valid (Ctx.init s p t) (.headers r)).2 = observe valid s p t r ∧
+    (observe valid s p t r).isRequest = true ∧
+    unapplyX (step valid (Ctx.init s p t) (.headers r)).1 = Ctx.init s p t := by
+  refine ⟨rfl, ?_, ?_⟩
+  · simp only [observe, step, hp, Obs.isRequest]
+  · simp only [step, hp, unapply_restores]; rfl
+
+/-- `no_leak_conn`: on a connection driven the way `_server_request_loop` drives it — keep-alive requests, then possibly
+    one that ends it (not kept alive, delegate raising in `finish` so that the restore is SKIPPED, peer leaving inside
+    the body, header block refused with 400) — the request objects built are exactly those of the requests that reach
+    the application (`servedReqs`), and each one is what that request observes alone on a fresh connection. -/
+theorem no_leak_conn (valid : Str → Bool) (s p : Str) (t : List Str) (reqs : List (List Str × Outcome)) :
+    (run valid (Ctx.init s p t) (connEvents reqs)).2.filter Obs.isRequest =
+      (servedReqs reqs).map (observe valid s p t) := by
+  induction reqs with
+  | nil => rfl
+  | cons ro rest ih =>
+    obtain ⟨r, o⟩ := ro
+    cases hp : parseBlock r with
+    | error e =>
+      simp only [connEvents, servedReqs, hp, run_cons, run, List.map_nil]
+      simp [step, hp, Obs.isRequest]
+    | ok h =>
+      obtain ⟨h1, h2, h3⟩ := step_headers_ok valid s p t r h hp
+      cases o with
+      | keep =>
+        simp only [connEvents, servedReqs, hp, run_cons, List.map_cons, h1]
+        have hf : (step valid (step valid (Ctx.init s p t) (.headers r)).1 .finish).1 = Ctx.init s p t := h3
+        have hn : (step valid (step valid (Ctx.init s p t) (.headers r)).1 .finish).2 = Obs.none := rfl
+        rw [hf, hn]
+        simp only [List.filter_cons, h2, if_true, isRequest_none, Bool.false_eq_true, if_false, ih]
+      | last =>
+        simp only [connEvents, servedReqs, hp, run_cons, run, List.map_cons, List.map_nil, h1]
+        simp [List.filter_cons, h2, step, isRequest_none]
+      | raises =>
+        simp only [connEvents, servedReqs, hp, run_cons, run, List.map_cons, List.map_nil, h1]
+        simp [List.filter_cons, h2, step, isRequest_none]
+      | abort =>
+        simp only [connEvents, servedReqs, hp, run_cons, run, List.map_cons, List.map_nil, h1]
+        simp [List.filter_cons, h2, step, isRequest_none]
+
+/-- non-vacuity: a connection with a rewriting request, a raising one and one that is never read -/
+example : servedReqs [([C43.ofAscii "X-Real-Ip: 1"], .keep), ([C43.ofAscii "X-Real-Ip: 2"], .raises), ([], .keep)] =
+    [[C43.ofAscii "X-Real-Ip: 1"], [C43.ofAscii "X-Real-Ip: 2"]] := by decide
+
 /-! ### "a numeric IP address" (`Spec.numericIP`, written from inet(3)/RFC 4291/RFC 4007 — not from `is_valid_ip`) -/
 
 /-- contract of the platform resolver as seen through `valid`: what it accepts is numeric-host text -/
